@@ -224,6 +224,7 @@ PROPS = {
         "technique": "property-based end-to-end testing of the assembled service with stub log servers (rapid-generated schedules)",
         "assumptions": HIST_ASSUME + ["loopback TCP is available in the sandbox"],
         "parts": {
+            "fixed": {"bin": "omni", "run": "TestC14Fixed", "kind": "plain"},
             "main": {"bin": "omni", "run": "TestC14", "checks": {"quick": 5, "thorough": 160}, "shards": {"quick": 1, "thorough": 16}, "shrinktime": "60s"},
         },
     },
